@@ -18,9 +18,12 @@ for pid in sorted(props):
         'evidence_file': 'evidence/%s.json' % pid,
         'replay_cmd_template': './check %s --replay {path}' % pid,
         'engine': 'verus-overlay',
-        'level_claimed': {'category': p['level'], 'text': p['explanation'], 'design_ref': p.get('design_ref', 'DESIGN.md')},
+        'level_claimed': {'category': p['level'], 'text': p['explanation'] + (
+            ' || BOUNDED STAND-IN (native run of the real function against an oracle written from the statement; labelled bounded in the evidence, '
+            'never counted as proved; supplies the failing input when it or a Verus obligation fails; DESIGN.md 2.6b): ' + p['bounded_standin'] if p.get('bounded_standin') else ''),
+            'design_ref': p.get('design_ref', 'DESIGN.md')},
         'level_note': note,
-        'technique': 'contract-based deductive verification (Verus) of code extracted mechanically from /repo',
+        'technique': 'contract-based deductive verification (Verus) of code extracted mechanically from /repo; bounded native stand-in for what stays outside the verifier',
     })
 claimed = {c['property_id'] for c in checks}
 m = {
